@@ -172,6 +172,59 @@ def reuse_tree_phase(t, term):
     t.outcome("reused-tree-ok")
 
 
+FILE_DATA = {"a\nb": ["a\n\nb", "a\r\n \t\r\nb"]}  # + data holding an empty / blank line (file phase only)
+
+
+def _variants(term):
+    """the term, and the term with each line-break data value replaced by one holding a blank line"""
+    yield term
+    tag, body = term
+    if isinstance(body, str):
+        for alt in FILE_DATA.get(body, []):
+            yield (tag, alt)
+        return
+    for i, ch in enumerate(body):
+        for v in list(_variants(ch))[1:]:
+            yield (tag, body[:i] + [v] + body[i + 1 :])
+
+
+def file_phase(chunk):
+    """the same bodies as whole files through OFXTree.parse(): v1 and v2 headers, each in the standard layout and in the
+    tightest one the library tolerates (no line breaks at all / CR only), body in the XML and the SGML rendering"""
+    import io
+
+    from ofxtools.Parser import OFXTree
+
+    from vf import ref_header as H
+
+    t = Tally()
+    f1 = H.v1_fields(102, encoding="UTF-8", charset="NONE")
+    f2 = H.v2_fields(203)
+    heads = [("v1-standard", H.render_v1(f1)), ("v1-one-line", H.render_v1(f1, seps=[""] * 8, gap="")), ("v1-cr-only", H.render_v1(f1, seps=["\r"] * 8, gap="\r")),
+             ("v2-standard", H.render_v2(f2)), ("v2-one-line", H.render_v2(f2, br1="", br2=""))]
+    for base in chunk:
+        for term in _variants(base):
+            toks, nleaves = ref_sgml.tokens(term)
+            for lo in ({}, {leaf: (True, False) for leaf in range(nleaves) if ref_sgml.can_omit(toks, leaf)}):
+                text = ref_sgml.render(term, lo, None)
+                if ref_sgml.build(text) != term:
+                    raise HarnessError(f"reference does not read back {text!r}")
+                for hname, head in heads:
+                    t.count("evaluations")
+                    t.count("files")
+                    case = {"term": term, "leafopts": sorted(lo.items()), "gaps": None, "head": hname}
+                    try:
+                        got = ref_sgml.et_to_term(OFXTree().parse(io.BytesIO((head + text).encode("utf_8"))))
+                    except Exception as e:
+                        t.fail(f"C02|file|{hname}|raises-{type(e).__name__}", case, f"{type(e).__name__}: {e} on {head[-30:] + text!r}")
+                        continue
+                    if got != term:
+                        t.fail(f"C02|file|{hname}|wrong-tree", case, f"{head[-30:] + text!r} -> {got!r}, expected {term!r}")
+                    else:
+                        t.outcome("file-ok")
+    return t
+
+
 def work(chunk):
     t = Tally()
     for n, (term, k) in enumerate(chunk):
@@ -226,6 +279,7 @@ def run(ctx):
     rot = ctx.seed % max(1, len(items))
     items = items[rot:] + items[:rot]
     tally = ctx.pmap(work, items, chunk=max(1, len(items) // (ctx.workers * 8)))
+    tally.merge(ctx.pmap(file_phase, list(all_trees(3 if ctx.quick else 4, None if ctx.quick else 2))))
     if tally.counts.get("terms", 0) < 1000:
         vacuous(tally, "vacuous: fewer than 1000 terms enumerated")
     sample_term = ("A", [("B1", "a b"), ("C.D_E", [])])
@@ -252,12 +306,19 @@ def run(ctx):
             "every 10th tree is also read in three renderings through one re-used OFXTree object (v2 header + body)",
             "every 25th tree is preceded by four malformed bodies (their refusal is C08's business; here they only precede the well-formed ones)",
             "root of a body is an aggregate",
+            "every tree of <=3 nodes (thorough: <=4 with <=2 non-default leaves), also with data holding a blank line, is read as a whole file through OFXTree.parse() under 5 header layouts x 2 renderings",
         ],
     }
 
 
 def replay(ctx, case):
     term = _tup(case["term"])
+    if case.get("head"):
+        t = file_phase([term])
+        for sig, (n, c, d) in sorted(t.fails.items()):
+            if c.get("head") == case["head"]:
+                print(" ", sig, "|", d)
+        return any(c.get("head") == case["head"] for (n, c, d) in t.fails.values())
     leafopts = {int(k): tuple(v) for k, v in case["leafopts"]}
     gaps = case["gaps"]
     text = ref_sgml.render(term, leafopts, gaps)
